@@ -160,16 +160,17 @@ type Controller struct {
 	self      *Thread
 	trace     bool
 
-	objIDs     map[any]int
-	mutexes    map[any]*MutexState
-	onces      map[any]*OnceState
-	wgs        map[any]*WGState
-	chans      map[uintptr]*ChanState
-	keepAlive  []any
-	captured   map[string][]any
-	watchers   map[any]func(v any)
-	noBranch   bool
-	lastThread *Thread
+	objIDs      map[any]int
+	mutexes     map[any]*MutexState
+	onces       map[any]*OnceState
+	wgs         map[any]*WGState
+	chans       map[uintptr]*ChanState
+	keepAlive   []any
+	captured    map[string][]any
+	watchers    map[any]func(v any)
+	noBranch    bool
+	lastThread  *Thread
+	inSpinCheck bool
 	// StateHook, when set, contributes harness-observable state to the state signature.
 	env map[string]any
 }
@@ -369,9 +370,24 @@ func (t *Thread) Point(op Op) {
 	}
 	t.lastKind, t.lastObj = op.Kind, op.Obj
 	c.lastThread = t
-	if t.repeat >= 3 {
+	if t.repeat >= 64 {
+		// yields only while somebody else can run: a thread that is alone is never blocked by this rule
+		// (a genuine livelock then runs into the step horizon instead of being reported as a deadlock)
 		mark := c.steps + 1
-		op.Enabled = func() bool { return c.steps > mark }
+		op.Enabled = func() bool {
+			if c.steps > mark || c.inSpinCheck {
+				return true
+			}
+			c.inSpinCheck = true
+			defer func() { c.inSpinCheck = false }()
+			for _, x := range c.threads {
+				if x != t && x.enabled() {
+					return false
+				}
+			}
+
+			return true
+		}
 	}
 	t.pending = &op
 	t.nops++
